@@ -371,6 +371,42 @@ type result struct {
 	obs   []Obs
 	extra []string
 	err   error
+	viaDB bool // the program was also run through pkg/database.DB
+}
+
+// the observations of the two executors must be identical (error texts are not compared)
+func sameObs(a, b []Obs) (int, bool) {
+	if len(a) != len(b) {
+		return 0, false
+	}
+	for i := range a {
+		x, y := a[i], b[i]
+		x.ErrMsg, y.ErrMsg = "", ""
+		if x.term() != y.term() {
+			return i, false
+		}
+	}
+	return 0, true
+}
+
+// runBoth: the engine run, and for the programs selected for it the same program through
+// pkg/database; a difference between the two is reported as a violation of its own
+func runBoth(steps []Step, alsoDB bool) result {
+	obs, extra, err := runProgram(steps, false)
+	res := result{steps: steps, obs: obs, extra: extra, err: err, viaDB: alsoDB}
+	if err != nil || !alsoDB {
+		return res
+	}
+	dobs, dextra, derr := runProgram(steps, true)
+	if derr != nil {
+		res.err = fmt.Errorf("pkg/database executor: %w", derr)
+		return res
+	}
+	res.extra = append(res.extra, dextra...)
+	if i, ok := sameObs(obs, dobs); !ok {
+		res.extra = append(res.extra, fmt.Sprintf("pkg/database.DB (NewSQLTx/SQLExec/SQLQuery) behaves differently from sql.Engine at step %d: engine %s, database %s", i, obs[i].term(), dobs[i].term()))
+	}
+	return res
 }
 
 func record(r *vk.Run, res result, origin string, maxKnown map[string]int) {
@@ -416,19 +452,28 @@ func record(r *vk.Run, res result, origin string, maxKnown map[string]int) {
 func Gen(r *vk.Run, n int) error {
 	var progs [][]Step
 	var origin []string
+	var alsoDB []bool
 	for _, p := range seedPrograms() {
 		progs = append(progs, p)
-		origin = append(origin, "seed")
+		origin = append(origin, "seed+db")
+		alsoDB = append(alsoDB, true)
 	}
 	for i := 0; i < n; i++ {
 		flavor := i % 5 // 0,4: mixed; 1: savepoint heavy; 2: no savepoints; 3: savepoints without ROLLBACK TO
 		progs = append(progs, genProgram(r.Rng, flavor))
-		origin = append(origin, fmt.Sprintf("random%d", flavor))
+		// every sixth random program is executed a second time through pkg/database.DB
+		if i%6 == 5 {
+			origin = append(origin, fmt.Sprintf("random%d+db", flavor))
+			alsoDB = append(alsoDB, true)
+		} else {
+			origin = append(origin, fmt.Sprintf("random%d", flavor))
+			alsoDB = append(alsoDB, false)
+		}
 	}
 	results := make([]result, len(progs))
 	workers := runtime.NumCPU()
-	if workers > 6 {
-		workers = 6
+	if workers > 8 {
+		workers = 8
 	}
 	var wg sync.WaitGroup
 	ch := make(chan int)
@@ -437,8 +482,7 @@ func Gen(r *vk.Run, n int) error {
 		go func() {
 			defer wg.Done()
 			for i := range ch {
-				obs, extra, err := runProgram(progs[i])
-				results[i] = result{progs[i], obs, extra, err}
+				results[i] = runBoth(progs[i], alsoDB[i])
 			}
 		}()
 	}
@@ -467,10 +511,10 @@ func Replay(r *vk.Run, c map[string]any) error {
 	if err := json.Unmarshal(b, &steps); err != nil {
 		return err
 	}
-	obs, extra, err := runProgram(steps)
-	if err != nil {
-		return err
+	res := runBoth(steps, true)
+	if res.err != nil {
+		return res.err
 	}
-	record(r, result{steps, obs, extra, nil}, "replay", map[string]int{})
+	record(r, res, "replay+db", map[string]int{})
 	return nil
 }
